@@ -303,6 +303,24 @@ class CaseInsensitiveDefaultDict(defaultdict):
         key = key.lower() if isinstance(key, str) else key
         return super().__contains__(key)
 
+    def __delitem__(self, key):
+        key = key.lower() if isinstance(key, str) else key
+        super().__delitem__(key)
+
+    def pop(self, key, *args):
+        key = key.lower() if isinstance(key, str) else key
+        return super().pop(key, *args)
+
+    def setdefault(self, key, default=None):
+        key = key.lower() if isinstance(key, str) else key
+        return super().setdefault(key, default)
+
+    def update(self, other=(), /, **kwargs):
+        for key, value in (other.items() if hasattr(other, 'items') else other):
+            self[key] = value
+        for key, value in kwargs.items():
+            self[key] = value
+
 
 def strip_inline_comments(source, comment_char='!', str_delim='"\''):
     """
